@@ -508,34 +508,52 @@ func (fi *FuncInfo) resolveCell(v ssa.Value) ssa.Value {
 	if !ok || u.Op != token.MUL {
 		return v
 	}
-	al, ok := u.X.(*ssa.Alloc)
-	if !ok || al.Parent() != fi.Fn {
+	var cell ssa.Value
+	switch a := u.X.(type) {
+	case *ssa.Alloc:
+		if a.Parent() != fi.Fn {
+			return v
+		}
+		cell = a
+	case *ssa.FreeVar:
+		cell = a // captured variable: only stores inside this closure are visible
+	default:
 		return v
 	}
-	var stores []*ssa.Store
-	for _, r := range *al.Referrers() {
-		if st, ok := r.(*ssa.Store); ok && st.Addr == al {
-			stores = append(stores, st)
-		}
-	}
-	// reaching stores: stores from which the load is reachable without
-	// crossing another store to the same cell
 	isStore := func(in ssa.Instruction) bool {
 		st, ok := in.(*ssa.Store)
-		return ok && st.Addr == al
+		return ok && st.Addr == cell
 	}
 	var reaching []*ssa.Store
-	for _, st := range stores {
-		if fi.PathAvoiding(st, func(in ssa.Instruction) bool { return in == ssa.Instruction(u) }, isStore) != nil {
-			reaching = append(reaching, st)
+	for _, in := range fi.Instrs {
+		if st, ok := in.(*ssa.Store); ok && st.Addr == cell {
+			if fi.PathAvoiding(st, func(in ssa.Instruction) bool { return in == ssa.Instruction(u) }, isStore) != nil {
+				reaching = append(reaching, st)
+			}
 		}
 	}
-	// is the zero value (no store) reaching?
-	zeroReaches := fi.PathAvoiding(nil, func(in ssa.Instruction) bool { return in == ssa.Instruction(u) }, isStore) != nil
-	if len(reaching) == 1 && !zeroReaches {
+	// is the initial value (no store on the path) reaching?
+	initReaches := fi.PathAvoiding(nil, func(in ssa.Instruction) bool { return in == ssa.Instruction(u) }, isStore) != nil
+	if len(reaching) == 1 && !initReaches {
 		return reaching[0].Val
 	}
 	return v
+}
+
+// cellAddr returns the variable cell (local Alloc or captured FreeVar) that v
+// is loaded from, nil otherwise.
+func cellAddr(v ssa.Value) ssa.Value {
+	u, ok := v.(*ssa.UnOp)
+	if !ok || u.Op != token.MUL {
+		return nil
+	}
+	switch a := u.X.(type) {
+	case *ssa.Alloc:
+		return a
+	case *ssa.FreeVar:
+		return a
+	}
+	return nil
 }
 
 // cellOf: the local Alloc a value is loaded from (nil otherwise).
